@@ -481,13 +481,28 @@ func parseDesignators(s string) ([]ast.Expr, error) {
 	if s == "nothing" || s == "" {
 		return nil, nil
 	}
-	if strings.HasPrefix(s, "everything except ") {
-		// everything except <key-prefix>, <key-prefix> ...   (heap key prefixes such as f:engine. or ghost:written)
+	if strings.HasPrefix(s, "everything except ") || strings.HasPrefix(s, "everything,") {
+		// everything [except <heap-key-prefix>, ...] [, count(x), ...]
+		// "everything" is the whole heap; ghost counters change only when listed.
 		var args []ast.Expr
-		for _, p := range strings.Split(strings.TrimPrefix(s, "everything except "), ",") {
-			args = append(args, &ast.BasicLit{Kind: token.STRING, Value: strconv.Quote(strings.TrimSpace(p))})
+		var extra []ast.Expr
+		body := strings.TrimPrefix(strings.TrimPrefix(s, "everything"), " except")
+		for _, p := range splitTop(body, ',') {
+			p = strings.TrimSpace(p)
+			if p == "" {
+				continue
+			}
+			if strings.HasPrefix(p, "count(") {
+				e, err := parser.ParseExpr(p)
+				if err != nil {
+					return nil, err
+				}
+				extra = append(extra, e)
+				continue
+			}
+			args = append(args, &ast.BasicLit{Kind: token.STRING, Value: strconv.Quote(p)})
 		}
-		return []ast.Expr{&ast.CallExpr{Fun: &ast.Ident{Name: "everythingExcept"}, Args: args}}, nil
+		return append([]ast.Expr{&ast.CallExpr{Fun: &ast.Ident{Name: "everythingExcept"}, Args: args}}, extra...), nil
 	}
 	var out []ast.Expr
 	for _, part := range splitTop(s, ',') {
